@@ -886,12 +886,13 @@ Proof.
   - destruct Hs as [_ Hs]. lia.
 Qed.
 
-(** A reachable state showing it: entity 2 in the zero archetype, entity 3 in archetype {1,2}
-    (both relation components, target entity 2), entity 4 in archetype {1}; an unsafe filter
-    without ids; a query with the per-query relations (1 -> 2), (2 -> 2). The table of archetype
-    {1} lacks component 2, so Matches panics there: Count fails (nil dereference), while
-    EntityAt 0 and EntityAt 1 - found before that table is reached - succeed; EntityAt 2 reaches
-    the table and fails like Count. *)
+(** A reachable state: entity 2 in the zero archetype, entity 3 in archetype {1,2} (both relation
+    components, target entity 2), entity 4 in archetype {1}; an unsafe filter without ids; a query
+    with the per-query relations (1 -> 2), (2 -> 2). The table of archetype {1} lacks component 2.
+    REGRESSION: before the repair of table.Matches / archetype.GetTables (a relation on a component
+    the table lacks is now "no match"; it used to be a nil dereference) Count panicked here while
+    EntityAt 0 and 1 - found before that table is reached - succeeded (the model infidelity that
+    made [query_entity_at] lazy). Now Count is 2 and EntityAt 2 is out of range. *)
 Definition q_lazy_cfg : script_cfg :=
   {| sc_cap := 2; sc_caprel := 1; sc_bits := 256; sc_debug := false; sc_kinds := map kind_of_code [0; 7; 8]%Z |}.
 Definition q_lazy_world : W :=
@@ -899,17 +900,23 @@ Definition q_lazy_world : W :=
     [ [0]; [2; 2; 1; 2; 2; 1; 0; 2; 0]; [2; 1; 1; 1; 1; 0];
       [15; 1; 0; 0; 0; 0]; [19; 0; 2; 1; 0; 2; 0] ]%Z.
 Example query_entity_at_lazy_example :
-  query_count 0 q_lazy_world = Err ENil q_lazy_world /\
+  query_count 0 q_lazy_world = Ok 2 q_lazy_world /\
   query_entity_at 0 0 q_lazy_world = Ok (2, 0%N) q_lazy_world /\
   query_entity_at 0 1 q_lazy_world = Ok (3, 0%N) q_lazy_world /\
-  query_entity_at 0 2 q_lazy_world = Err ENil q_lazy_world.
+  query_entity_at 0 2 q_lazy_world = Err EIndex q_lazy_world.
 Proof. vm_compute. repeat split; reflexivity. Qed.
 
+(** Laziness is still observable in the model on a state with a defective archetype list (an
+    archetype without relation components and without table appended at the end: not reachable any
+    more since createArchetype creates that table): the complete walk of Count fails there, EntityAt
+    for an index found earlier succeeds. *)
+Definition q_lazy_world_bad : W :=
+  q_lazy_world <| w_archs ::= fun l => l ++ [{| a_mask := 1%N; a_comps := [0]; a_isrel := [false]; a_tables := []; a_free := [];
+                                                  a_reltabs := [[]]; a_tgttabs := []; a_numrel := 0 |}] |>.
 Corollary query_entity_at_lazy_witness :
   exists s qi e er, query_count qi s = Err er s /\ query_entity_at qi 0 s = Ok e s.
 Proof.
-  exists q_lazy_world, 0, (2, 0%N), ENil.
-  destruct query_entity_at_lazy_example as (H1 & H2 & _). split; assumption.
+  exists q_lazy_world_bad, 0, (2, 0%N), EIndex. vm_compute. split; reflexivity.
 Qed.
 
 (** ** The cursor visits exactly the walked rows, in order (uncached and cached queries).
